@@ -99,6 +99,9 @@ def cases(tier, seed):
         if kick == "big" and (sp != 0.9 or vert != "off"):
             continue
         out.append(dict(mode="run", dir=di, speed=sp, scheme=sch, subgrid=sg, vertical=vert, kick=kick))
+    # stages exactly ON a grid limit (the clip must catch equality as well)
+    for di, sch, sg in itertools.product(range(4), ["RK2", "RK4"], [None, [2, 14, 1, 12]]):
+        out.append(dict(mode="run", dir=di, speed=4.0, scheme=sch, subgrid=sg, vertical="off", kick="none", exact=True))
     # beyond the lattice: thousands of particles released in one step (work arrays that grow, chunked loops)
     for sch in b["schemes"]:
         out.append(dict(mode="run", dir=4, speed=0.5, scheme=sch, subgrid=None, vertical="advection+diffusion", kick="none", crowd=2600))
@@ -111,6 +114,7 @@ def cases(tier, seed):
 Scripted = scriptrng.Alternating  # +val, -val, ... along the stream of drawn scalars, whatever the call structure
 
 
+WX = world.World(imax=16, jmax=15, N=3, h=40.0, dx=1024.0, theta_s=3.0, theta_b=0.4, hc=5.0)
 W = world.World(imax=11, jmax=10, N=3, h=np.fromfunction(lambda j, i: 20.0 + 3 * i + 5 * j, (10, 11)), dx=800.0, theta_s=3.0, theta_b=0.4, hc=5.0)
 
 
@@ -136,21 +140,32 @@ def run_scenario(case, mode):
     """One end-to-end run with the given kernel pass. Returns (sig, msg) or None, and run facts."""
     install(mode)
     d = util.scratch("c17")
-    dx = 800.0
+    exact = bool(case.get("exact"))
+    # `exact`: dx = 1024 m, dt = 512 s, 8 m/s: exactly 4 cells per step, so that Runge-Kutta stages land EXACTLY on the limits of the grid
+    Wd, dx, DTd = (WX, 1024.0, 512) if exact else (W, 800.0, DT)
     ux, uy = DIRS[case["dir"]]
-    u, v = ux * case["speed"] * dx / DT, uy * case["speed"] * dx / DT
-    fr = W.uniform(u, v)
-    fr["temp"] = np.fromfunction(lambda k, j, i: 1.0 * k + 0.25 * j + 0.125 * i, (W.N, W.jmax, W.imax))
-    fr["w"] = np.full((W.N, W.jmax, W.imax), 0.002)
-    W.write_file(d / "f.nc", [dict(t=S0 - DT, **fr), dict(t=S0 + 4 * DT, **fr)], storage="f4")
+    u, v = ux * case["speed"] * dx / DTd, uy * case["speed"] * dx / DTd
+    fr = Wd.uniform(u, v)
+    fr["temp"] = np.fromfunction(lambda k, j, i: 1.0 * k + 0.25 * j + 0.125 * i, (Wd.N, Wd.jmax, Wd.imax))
+    fr["w"] = np.full((Wd.N, Wd.jmax, Wd.imax), 0.002)
+    Wd.write_file(d / "f.nc", [dict(t=S0 - DTd, **fr), dict(t=S0 + 4 * DTd, **fr)], storage="f4")
     sg = case["subgrid"]
-    lim = sg or [1, W.imax - 1, 1, W.jmax - 1]
+    lim = sg or [1, Wd.imax - 1, 1, Wd.jmax - 1]
     rows = []
     for x, y in seeds(lim):
         ic, jc = int(round(x)), int(round(y))
-        h = float(W.h[jc, ic])
+        h = float(Wd.h[jc, ic])
         for z in (0.0, h / 2, h, h + 30.0):
             rows.append(dict(release_time=world.iso(S0), X=x, Y=y, Z=z))
+    if exact:
+        # grid limits of ladim: xmin = i0, xmax = i1 - 1 (likewise y). Start 2 cells (half a step) and 4 cells (a whole step) before the limit the flow
+        # heads for, on lines through the middle of the grid: the mid-point stages of RK2/RK4 and the last stage of RK4 are exactly ON the limit
+        xm, ym = 0.5 * (lim[0] + lim[1] - 1), 0.5 * (lim[2] + lim[3] - 1)
+        rows = []
+        for back in (2.0, 4.0):
+            x = (lim[1] - 1 - back) if ux > 0 else (lim[0] + back) if ux < 0 else xm
+            y = (lim[3] - 1 - back) if uy > 0 else (lim[2] + back) if uy < 0 else ym
+            rows += [dict(release_time=world.iso(S0), X=float(x), Y=float(y), Z=0.0), dict(release_time=world.iso(S0), X=float(x), Y=float(y), Z=7.0)]
     if case.get("crowd"):  # a first small release, then a crowd in the next step: the particle count grows 100-fold at once
         rows = rows[:24] + [dict(release_time=world.iso(S0 + DT), X=x, Y=y, Z=5.0 + (k % 7)) for k, (x, y) in enumerate(itertools.islice(itertools.cycle(seeds(lim)), case["crowd"]))]
     tracker = dict(advection=case["scheme"])
@@ -159,12 +174,12 @@ def run_scenario(case, mode):
         tracker.update(vertical_advection=True, vertdiff=1e-3)
     if case["kick"] != "none":
         tracker.update(diffusion=10.0)
-    conf = drive.roms_conf(d, d / "f.nc", S0, S0 + 3 * DT, DT, rows, tracker=tracker, subgrid=sg, extra_forcing=["temp", "w"], state=state,
+    conf = drive.roms_conf(d, d / "f.nc", S0, S0 + 3 * DTd, DTd, rows, tracker=tracker, subgrid=sg, extra_forcing=["temp", "w"], state=state,
                            outvars=("pid", "X", "Y", "Z", "temp"))
     facts = dict(left=0, n=len(rows))
     if case["vertical"] == "off" and case["dir"] % 2 == 0:
         # the vertical set-up given in the configuration (Vinfo) instead of being read from the grid file (same values)
-        conf["grid"]["Vinfo"] = dict(N=W.N, hc=5.0, theta_s=3.0, theta_b=0.4, Vstretching=1, Vtransform=1)
+        conf["grid"]["Vinfo"] = dict(N=Wd.N, hc=5.0, theta_s=3.0, theta_b=0.4, Vstretching=1, Vtransform=1)
     try:
         # adversarial history: another Grid on the SAME file with a smaller subgrid was built earlier in this process
         from ladim.ROMS import Grid as _Grid
